@@ -96,13 +96,28 @@ Definition Represented (g : graph) (ar : list entry) (v : rv) : Prop :=
 Definition IsControl (c : json) (s : string) : Prop :=
   HasType c "ControlAction" /\ exists j, get c "instrument" = Some j /\ ref_of j = Some s.
 
-(* consistent at step level: the step has a ControlAction, and every CreateAction it orchestrates lists at least
-   one result, and lists as result nothing but entities carrying the value the step produced *)
+(* the entity called x carries the value v *)
+Definition Carries (g : graph) (ar : list entry) (x : string) (v : value) : Prop :=
+  exists e, Entity g x e /\ ValOk g ar e x v.
+
+(* action a is the record of job j *)
+Definition JobOk (g : graph) (ar : list entry) (a : json) (j : job) : Prop :=
+  (* everything the job consumed is listed as object ... *)
+  (forall v, In v (j_ins j) -> exists x, PRef a "object" x /\ Carries g ar x v) /\
+  (* ... and, when all inputs of the job are known, nothing else is *)
+  (j_closed j = true -> forall x, PRef a "object" x -> exists v, In v (j_ins j) /\ Carries g ar x v) /\
+  (* what the job produced, when known: at least one result, and nothing but carriers of it *)
+  (forall v, j_out j = Some v -> (exists x, PRef a "result" x) /\ forall x, PRef a "result" x -> Carries g ar x v).
+
+(* a is an action that a ControlAction of step s lists under object *)
+Definition StepAction (g : graph) (s : string) (a : json) : Prop :=
+  In a g /\ exists i c, ent_id a = Some i /\ In c g /\ IsControl c s /\ PRef c "object" i.
+
+(* consistent at step level: every action orchestrated for the step is the record of one of its jobs, and every
+   job has such a record *)
 Definition StepOk (g : graph) (ar : list entry) (v : sv) : Prop :=
-  (exists c, In c g /\ IsControl c (sv_step v)) /\
-  forall c aid a, In c g -> IsControl c (sv_step v) -> PRef c "object" aid -> Entity g aid a ->
-    (exists x, PRef a "result" x) /\
-    forall x, PRef a "result" x -> exists e, Entity g x e /\ ValOk g ar e x (sv_val v).
+  (forall a, StepAction g (sv_step v) a -> exists j, In j (sv_jobs v) /\ JobOk g ar a j) /\
+  (forall j, In j (sv_jobs v) -> exists a, StepAction g (sv_step v) a /\ JobOk g ar a j).
 
 Record wf_crate (g : graph) (ar : list entry) (vs : list rv) (ss : list sv) : Prop := {
   (* valid JSON-LD node objects: every element of @graph has a string @id *)
@@ -115,6 +130,6 @@ Record wf_crate (g : graph) (ar : list entry) (vs : list rv) (ss : list sv) : Pr
   wf_files : forall e i, Entity g i e -> HasType e "File" -> RecordedOk ar e i;
   (* every input and output value of the run is represented *)
   wf_values : forall v, In v vs -> Represented g ar v;
-  (* consistent: a step's actions list as result what that step produced, nothing else *)
+  (* consistent: the actions of a step list what its jobs consumed and produced *)
   wf_steps : forall v, In v ss -> StepOk g ar v
 }.
